@@ -55,6 +55,9 @@ static ModelVerdict model_check(const Canon &c, const Task &t, const DriveOut &d
 	std::vector<size_t> deferred;  // H indices of dangerous links extracted and not yet re-presented
 	size_t readpos = 0;
 	size_t curfake = 0;
+	// an injected skip failure (S-SKIPFAIL) may end the archive early - once; nothing else may change
+	bool may_end_early = t.skipfail >= 0 && t.kind == "CB_SKIP";
+	size_t limit = c.H.size();
 	auto plen = [&](size_t hi) { return c.H[hi].path.size() + c.H[hi].name.size(); };
 	auto outside = [&](const HeaderObs &E, const HeaderObs &dir) {
 		if (!E.has_path) return true;
@@ -68,7 +71,15 @@ static ModelVerdict model_check(const Canon &c, const Task &t, const DriveOut &d
 				continue;
 			}
 			if (cur == START || cur == NORMAL) { ++idx; readpos = 0; }
-			bool eof = idx >= (long) c.H.size();
+			if (may_end_early && idx < (long) limit) {
+				// is the observation what an archive that goes on would give? (the member standing here, or a directory
+				// that is due before it); if not, the only acceptable explanation is that the archive ended at this point
+				bool consistent = !o.hdr.null && !o.result && o.hdr == c.H[idx];
+				if (!o.hdr.null && o.result && t.policy == LHA_READER_DIR_END_OF_DIR)
+					for (size_t k : pending) if (o.hdr == c.H[k] && outside(c.H[idx], c.H[k])) consistent = true;
+				if (!consistent) { limit = (size_t) idx; may_end_early = false; }
+			}
+			bool eof = idx >= (long) limit;
 			// which pending directories are due now?
 			std::vector<size_t> due;
 			for (size_t k = 0; k < pending.size(); ++k) {
@@ -219,6 +230,7 @@ struct C15 : Scenario {
 			t.dir = "/w/t" + std::to_string(k);
 			gen_history(rng, t, p.members.size(), true, 40);
 			for (auto &op : t.ops) if (op.kind == "extract") op.arg = (nt == 1 && k == 0 && op.arg == 1) ? 1 : 0;
+			if (t.kind == "CB_SKIP" && rng.chance(1, 5)) t.skipfail = (int64_t) rng.below(4);
 			p.tasks.push_back(t);
 		}
 		if (rng.chance(1, 3)) p.seti("twice", 1);
